@@ -34,8 +34,13 @@ claim('C05', 'Proof that the publish decision and id of the real ZMQSender.send 
 claim('C07', 'Proof that a balanced ZMQSender.send publishes all messages of a call on exactly one PUB socket and clears marks only there; balanced-receiver invariant of the real '
       'recv (single id, single active source, other sources unregistered, polled events discarded) gives single-source single-id sets in strictly increasing order; '
       'first hop never prefetches; no-duplicate lemma.', '6-C07')
+claim('C08', 'Proof by exhaustive symbolic execution of the real Filter.run (real exit, fini) with abstract stages that may return, call exit(), obey a propagated exit or raise at any '
+      'lifecycle point, for all 4 propagate policies x loop_exc, any number of loop iterations (cut-point): shutdown exactly once iff setup completed, MQ destroyed exactly once iff '
+      'created, stop event set, run() returns for clean exits and raises for errors (Python in-flight-exception semantics), announcement exactly once with the right kind before '
+      'teardown iff the policy covers it; real Filter.init: exit_after forms become the right deadline, obey policy of on_exit_msg; real Filter.loop_once: clean exit at the end of '
+      'the first iteration whose clock reached the deadline. Whole-pipeline termination is NOT decided.', '6-C08')
 _todo = 'check not built yet in this session (planned, see DESIGN.md section 6); not claimed until its obligations are discharged'
-for _p in ('C08', 'C11', 'C12', 'C13', 'C14', 'C15', 'C18'):
+for _p in ( 'C11', 'C12', 'C13', 'C14', 'C15', 'C18'):
     NA[_p] = _todo
 NA['C06'] = ('liveness under fairness and bounded-time recovery across several processes: not expressible as pre/postconditions or invariants of one call; '
              'termination is not proved by this verifier (DESIGN.md section 7); its safety ingredients are proved under C02/C04/C05')
